@@ -301,3 +301,375 @@ Print Assumptions src_parse_constraints.
 Print Assumptions src_parse_constraints_ok.
 Print Assumptions src_parse_constraints_model.
 Print Assumptions src_parse_ast_constraint.
+
+(* ================================================================== the tree part (builder mode) *)
+
+(* the model's answer and the translation's answer: the same value up to a relation, or an exception on
+   both sides, the translation's being ParsingException whenever the model's is *)
+Definition rrel {A B} (R : A -> B -> Prop) (m : result A) (c : result B) : Prop :=
+  match m, c with
+  | Ok a, Ok b => R a b
+  | Err e, Err e' => e = ParsingException -> e' = ParsingException
+  | _, _ => False
+  end.
+
+Lemma rrel_err_same : forall {A B} (R : A -> B -> Prop) e, rrel R (Err e) (Err e).
+Proof. intros A B R e H. exact H. Qed.
+
+Lemma rrel_err_other : forall {A B} (R : A -> B -> Prop) e e', e <> ParsingException -> rrel R (Err e) (Err e').
+Proof. intros A B R e e' Hne H. contradiction. Qed.
+
+Lemma bind_ret : forall {A} (m : result A), bind m (fun x => Ok x) = m.
+Proof. intros A [a|e]; reflexivity. Qed.
+
+(* 'k' in d, d.get(k) *)
+Lemma aval_has_jhas : forall d k, aval_has d k = jhas k d.
+Proof.
+  intros d k. destruct d; try reflexivity. cbn [aval_has jhas].
+  induction kv as [|[k' v'] kv IH]; [reflexivity|].
+  cbn [existsb assoc fst]. rewrite (String.eqb_sym k k').
+  destruct (String.eqb k' k); [reflexivity|]. exact IH.
+Qed.
+
+Lemma aval_get_default_assoc : forall a k,
+  aval_get_default a k VNone =
+  match a with
+  | VMap kv => match assoc k kv with Some x => x | None => VNone end
+  | _ => VNone
+  end.
+Proof.
+  intros a k. destruct a; try reflexivity. cbn [aval_get_default].
+  induction kv as [|[k' v'] kv IH]; [reflexivity|].
+  cbn [find assoc fst]. rewrite (String.eqb_sym k k').
+  destruct (String.eqb k' k); [reflexivity|]. exact IH.
+Qed.
+
+Lemma aval_depth_pos : forall v, (1 <= aval_depth v)%nat.
+Proof. intros v. destruct v; cbn [aval_depth]; lia. Qed.
+
+(* an indexed mapM: the shape of the model's loops *)
+Fixpoint imapM {X A} (step : nat -> X -> result A) (k : nat) (l : list X) : result (list A) :=
+  match l with
+  | [] => Ok []
+  | x :: xs => match step k x with
+               | Err e => Err e
+               | Ok y => match imapM step (S k) xs with Err e => Err e | Ok ys => Ok (y :: ys) end
+               end
+  end.
+
+Lemma rd_goc_imapM : forall rec here k chl j,
+  rd_goc rec here k j chl = imapM (fun j c => rec (here ++ [(k, j)]) (PPath here) c) j chl.
+Proof.
+  intros rec here k. induction chl as [|c cs IH]; intros j; [reflexivity|].
+  rewrite rd_goc_cons. cbn [imapM]. rewrite IH. reflexivity.
+Qed.
+
+Lemma rd_go_imapM : forall rec here rels k,
+  rd_go rec here k rels = imapM (rd_rel rec here) k rels.
+Proof.
+  intros rec here. induction rels as [|r rs IH]; intros k; [reflexivity|].
+  rewrite rd_go_cons. cbn [imapM]. rewrite IH. reflexivity.
+Qed.
+
+Lemma mapM_imapM : forall {X A} (f : X -> result A) l k, mapM f l = imapM (fun _ => f) k l.
+Proof.
+  intros X A f. induction l as [|x xs IH]; intros k; [reflexivity|].
+  rewrite mapM_cons. cbn [imapM]. rewrite (IH (S k)). reflexivity.
+Qed.
+
+Lemma foldM_cons : forall {S A} (F : S -> A -> result S) x xs s,
+  foldM F (x :: xs) s = match F s x with Err e => Err e | Ok s' => foldM F xs s' end.
+Proof. reflexivity. Qed.
+
+(* a loop that threads an accumulator, against an indexed mapM of the model *)
+Lemma imapM_foldM : forall {X A B S} (step : nat -> X -> result A) (F : S -> X -> result S)
+  (er : A -> B) (G : S -> B -> S) (l : list X),
+  (forall x, In x l -> forall k acc, rrel (fun y acc' => acc' = G acc (er y)) (step k x) (F acc x)) ->
+  forall k acc, rrel (fun ys acc' => acc' = fold_left G (map er ys) acc) (imapM step k l) (foldM F l acc).
+Proof.
+  intros X A B S step F er G. induction l as [|x xs IH]; intros H k acc.
+  - cbn. reflexivity.
+  - cbn [imapM]. rewrite foldM_cons. pose proof (H x (or_introl eq_refl) k acc) as Hx.
+    destruct (step k x) as [y|e], (F acc x) as [acc1|e']; cbn [rrel] in Hx; try contradiction.
+    + subst acc1.
+      assert (Hxs : forall x0, In x0 xs -> forall k0 acc0,
+                 rrel (fun y0 acc' => acc' = G acc0 (er y0)) (step k0 x0) (F acc0 x0))
+        by (intros x0 Hx0; apply H; now right).
+      specialize (IH Hxs (Datatypes.S k) (G acc (er y))).
+      destruct (imapM step (Datatypes.S k) xs) as [ys|e], (foldM F xs (G acc (er y))) as [acc2|e'];
+        cbn [rrel] in IH |- *; try contradiction.
+      * cbn [map fold_left]. exact IH.
+      * exact IH.
+    + exact Hx.
+Qed.
+
+Lemma fold_left_snoc : forall {B} (bs acc : list B), fold_left (fun a b => a ++ [b]) bs acc = acc ++ bs.
+Proof.
+  intros B. induction bs as [|b bs IH]; intros acc; cbn [fold_left].
+  - now rewrite app_nil_r.
+  - rewrite IH, <- app_assoc. reflexivity.
+Qed.
+
+Definition erase_rel (r : prelation) : relation :=
+  match r with PRelation _ a b cs => Relation a b (map erase cs) end.
+
+Lemma fold_left_add_relation : forall rs i rs0,
+  fold_left py_add_relation rs (Feature i rs0) = Feature i (rs0 ++ rs).
+Proof.
+  induction rs as [|r rs IH]; intros i rs0; cbn [fold_left py_add_relation].
+  - now rewrite app_nil_r.
+  - rewrite IH, <- app_assoc. reflexivity.
+Qed.
+
+Lemma fold_left_add_attribute : forall ats n ab t a b ats0 rs,
+  fold_left py_add_attribute ats
+    (Feature {| f_name := n; f_abstract := ab; f_type := t; f_cmin := a; f_cmax := b; f_attrs := ats0 |} rs) =
+  Feature {| f_name := n; f_abstract := ab; f_type := t; f_cmin := a; f_cmax := b; f_attrs := ats0 ++ ats |} rs.
+Proof.
+  induction ats as [|x ats IH]; intros n ab t a b ats0 rs; cbn [fold_left py_add_attribute].
+  - now rewrite app_nil_r.
+  - cbn [f_name f_abstract f_type f_cmin f_cmax f_attrs]. rewrite IH, <- app_assoc. reflexivity.
+Qed.
+
+Lemma rrel_impl : forall {A B} (R R' : A -> B -> Prop) m c,
+  rrel R m c -> (forall a b, R a b -> R' a b) -> rrel R' m c.
+Proof. intros A B R R' [a|e] [b|e'] H HR; cbn [rrel] in *; auto. Qed.
+
+(* ------------------------------------------------------------------ parse_attributes *)
+Lemma src_parse_attributes : forall node feat,
+  rrel (fun attrs f' => f' = fold_left py_add_attribute attrs feat)
+       (json_read_attributes node) (py_parse_attributes feat node).
+Proof.
+  intros node feat. rewrite json_read_attributes_eq. unfold py_parse_attributes.
+  rewrite aval_has_jhas, aval_get_jget.
+  destruct (jhas "attributes" node); [|cbn; reflexivity].
+  destruct (jget "attributes" node) as [al|e]; cbn [bind]; [|apply rrel_err_same].
+  destruct al as [| | | | |l|]; cbn [jlist bind]; try (apply rrel_err_other; discriminate).
+  rewrite bind_ret, (mapM_imapM rd_attr l 0).
+  eapply rrel_impl.
+  - apply (imapM_foldM (fun _ => rd_attr) _ (fun a => a) py_add_attribute).
+    intros a _ _ acc. cbv beta. unfold rd_attr.
+    rewrite aval_get_jget, aval_get_default_assoc.
+    destruct (jget "name" a) as [nv|e]; cbn [bind]; [|apply rrel_err_same].
+    destruct nv; cbn [jstr bind]; try (apply rrel_err_other; discriminate).
+    cbn [rrel]. reflexivity.
+  - intros ats f' H. cbv beta in H. rewrite map_id in H. exact H.
+Qed.
+
+(* ------------------------------------------------------------------ parse_relations / parse_tree *)
+Definition tree_rel (n fuel : nat) (c : aval) : Prop :=
+  forall here parent p,
+    rrel (fun pf f => f = erase pf) (json_parse_tree n here parent c) (py_parse_tree fuel p c).
+
+Lemma src_parse_relations_step : forall n f here node feat,
+  (forall rels rel chl c, jget "relations" node = Ok (VList rels) -> In rel rels ->
+     jget "children" rel = Ok (VList chl) -> In c chl -> tree_rel n f c) ->
+  rrel (fun prs f' => f' = fold_left py_add_relation (map erase_rel prs) feat)
+       (rd_rels (json_parse_tree n) here node) (py_parse_relations (S f) feat node).
+Proof.
+  intros n f here node feat IH. unfold rd_rels. cbn [py_parse_relations].
+  rewrite aval_has_jhas, aval_get_jget.
+  destruct (jhas "relations" node); [|cbn; reflexivity].
+  destruct (jget "relations" node) as [rl|e] eqn:Hrl; cbn [bind]; [|apply rrel_err_same].
+  destruct rl as [| | | | |rels|]; cbn [jlist bind]; try (apply rrel_err_other; discriminate).
+  rewrite bind_ret, rd_go_imapM.
+  apply (imapM_foldM (rd_rel (json_parse_tree n) here) _ erase_rel py_add_relation).
+  intros rel Hrel k acc. cbv beta. unfold rd_rel. rewrite aval_get_jget.
+  destruct (jget "children" rel) as [chv|e] eqn:Hch; cbn [bind]; [|apply rrel_err_same].
+  destruct chv as [| | | | |chl|]; cbn [jlist bind]; try (apply rrel_err_other; discriminate).
+  rewrite rd_goc_imapM.
+  match goal with |- context [foldM ?F chl []] =>
+    assert (Hc : rrel (fun pcs cs => cs = fold_left (fun a b => a ++ [b]) (map erase pcs) [])
+                   (imapM (fun j c => json_parse_tree n (here ++ [(k, j)]) (PPath here) c) 0 chl)
+                   (foldM F chl []))
+  end.
+  { apply imapM_foldM. intros c Hc j acc'. cbv beta.
+    pose proof (IH rels rel chl c eq_refl Hrel Hch Hc (here ++ [(k, j)]) (PPath here) (Some acc)) as Ht.
+    destruct (json_parse_tree n (here ++ [(k, j)]) (PPath here) c) as [pc|e],
+             (py_parse_tree f (Some acc) c) as [fc|e']; cbn [rrel bind] in Ht |- *; try contradiction.
+    - subst fc. reflexivity.
+    - exact Ht. }
+  destruct (imapM (fun j c => json_parse_tree n (here ++ [(k, j)]) (PPath here) c) 0 chl) as [pcs|e],
+           (foldM _ chl []) as [cs|e']; cbn [rrel] in Hc; try contradiction; cbn [bind]; [|exact Hc].
+  rewrite fold_left_snoc in Hc. cbn [app] in Hc. subst cs.
+  destruct pcs as [|pc pcs]; [cbn; auto|].
+  cbn [map py_is_nil negb]. rewrite aval_get_jget.
+  destruct (jget "type" rel) as [tv|e]; cbn [bind]; [|apply rrel_err_same].
+  destruct tv as [| | | |s| |]; cbn [jstr]; try (apply rrel_err_other; discriminate).
+  unfold json_relation_cards, jt_OPTIONAL, jt_MANDATORY, jt_XOR, jt_OR, jt_MUTEX, jt_CARDINALITY.
+  destruct (String.eqb s "OPTIONAL") eqn:E1; [cbn [rrel erase_rel map]; reflexivity|].
+  destruct (String.eqb s "MANDATORY") eqn:E2; [cbn [rrel erase_rel map]; reflexivity|].
+  destruct (String.eqb s "XOR") eqn:E3; [cbn [rrel erase_rel map]; reflexivity|].
+  destruct (String.eqb s "OR") eqn:E4.
+  { cbn [rrel erase_rel]. unfold py_len. cbn [List.length map]. rewrite map_length. reflexivity. }
+  destruct (String.eqb s "MUTEX") eqn:E5; [cbn [rrel erase_rel map]; reflexivity|].
+  destruct (String.eqb s "CARDINALITY") eqn:E6; [|apply rrel_err_same].
+  rewrite aval_get_jget.
+  destruct (jget "card_min" rel) as [a|e]; cbn [bind]; [|apply rrel_err_same].
+  rewrite aval_get_jget.
+  destruct (jget "card_max" rel) as [b|e]; cbn [bind]; [|apply rrel_err_same].
+  destruct a; cbn [jint foldM bind]; try apply rrel_err_same;
+  destruct b; cbn [jint foldM bind]; try apply rrel_err_same.
+  cbn [rrel erase_rel map]. reflexivity.
+Qed.
+
+(* attributes, then relations, on the feature just created *)
+Lemma src_parse_tree_tail : forall n f here parent node s abv,
+  (forall rels rel chl c, jget "relations" node = Ok (VList rels) -> In rel rels ->
+     jget "children" rel = Ok (VList chl) -> In c chl -> tree_rel n f c) ->
+  rrel (fun pf f' => f' = erase pf)
+    (match json_read_attributes node with Err e => Err e | Ok attrs =>
+     match rd_rels (json_parse_tree n) here node with
+     | Err e => Err e
+     | Ok prs => Ok (PFeature {| f_name := s; f_abstract := abv; f_type := TBoolean; f_cmin := 1; f_cmax := 1;
+                                 f_attrs := attrs |} parent (map (fun _ => PPath here) attrs) prs)
+     end end)
+    (bind (py_parse_attributes
+             (Feature {| f_name := s; f_abstract := abv; f_type := TBoolean; f_cmin := 1; f_cmax := 1;
+                         f_attrs := [] |} []) node)
+          (fun f9 => bind (py_parse_relations (S f) f9 node) (fun x => Ok x))).
+Proof.
+  intros n f here parent node s abv IH.
+  match goal with |- context [py_parse_attributes ?F node] => pose proof (src_parse_attributes node F) as Ha end.
+  destruct (json_read_attributes node) as [attrs|e], (py_parse_attributes _ node) as [f9|e'];
+    cbn [rrel] in Ha; try contradiction; cbn [bind]; [|exact Ha].
+  rewrite fold_left_add_attribute in Ha. cbn [app] in Ha. subst f9.
+  rewrite bind_ret.
+  match goal with |- context [py_parse_relations (S f) ?F node] =>
+    pose proof (src_parse_relations_step n f here node F IH) as Hr end.
+  destruct (rd_rels (json_parse_tree n) here node) as [prs|e], (py_parse_relations (S f) _ node) as [f10|e'];
+    cbn [rrel] in Hr |- *; try contradiction; [|exact Hr].
+  rewrite fold_left_add_relation in Hr. cbn [app] in Hr. subst f10.
+  rewrite erase_eq. reflexivity.
+Qed.
+
+Lemma src_parse_tree_rel : forall n fuel node,
+  (aval_depth node <= n)%nat -> (aval_depth node < fuel)%nat -> tree_rel n fuel node.
+Proof.
+  induction n as [|n IH]; intros fuel node Hn Hf.
+  - pose proof (aval_depth_pos node). lia.
+  - destruct fuel as [|[|f]]; [lia|pose proof (aval_depth_pos node); lia|].
+    intros here parent p. rewrite json_parse_tree_S. cbn [py_parse_tree].
+    rewrite aval_get_jget.
+    destruct (jget "name" node) as [nv|e]; cbn [bind]; [|apply rrel_err_same].
+    rewrite aval_get_jget.
+    destruct (jget "abstract" node) as [ab|e]; cbn [bind]; [|apply rrel_err_same].
+    destruct nv as [| | | |s| |]; cbn [jstr]; try apply rrel_err_same.
+    assert (IH' : forall rels rel chl c, jget "relations" node = Ok (VList rels) -> In rel rels ->
+              jget "children" rel = Ok (VList chl) -> In c chl -> tree_rel n f c).
+    { intros rels rel chl c H1 H2 H3 H4.
+      pose proof (depth_jget _ _ _ H1) as D1. pose proof (depth_list_in _ _ H2) as D2.
+      pose proof (depth_jget _ _ _ H3) as D3. pose proof (depth_list_in _ _ H4) as D4.
+      apply IH; lia. }
+    unfold rd_info.
+    destruct ab; cbn [json_abstract bind]; apply (src_parse_tree_tail n f here parent node s _ IH').
+Qed.
+
+(* ------------------------------------------------------------------ the constraints, relationally *)
+Lemma src_model_ctc_rrel : forall av, rrel eq (model_ctc_of av) (src_ctc_of av).
+Proof.
+  intros av. unfold src_ctc_of, model_ctc_of.
+  destruct (jget "name" av) as [nv|e]; [|apply rrel_err_same].
+  destruct (jget "ast" av) as [tv|e]; [|apply rrel_err_same].
+  destruct nv; cbn [jstr];
+    destruct (json_parse_ctc (aval_depth tv) tv) as [n|e];
+    first [apply rrel_err_other; discriminate | apply rrel_err_same | (cbn [rrel]; reflexivity)].
+Qed.
+
+Lemma mapM_rrel : forall {X A} (g h : X -> result A) (l : list X),
+  (forall x, In x l -> rrel eq (g x) (h x)) -> rrel eq (mapM g l) (mapM h l).
+Proof.
+  intros X A g h. induction l as [|x xs IH]; intros H; [cbn; reflexivity|].
+  rewrite !mapM_cons. pose proof (H x (or_introl eq_refl)) as Hx.
+  destruct (g x) as [y|e], (h x) as [y'|e']; cbn [rrel] in Hx; try contradiction; [|exact Hx].
+  subst y'.
+  assert (IH' : rrel eq (mapM g xs) (mapM h xs)) by (apply IH; intros x0 Hx0; apply H; now right).
+  destruct (mapM g xs) as [ys|e], (mapM h xs) as [ys'|e']; cbn [rrel] in IH' |- *; try contradiction.
+  - now subst ys'.
+  - exact IH'.
+Qed.
+
+(* ------------------------------------------------------------------ JSONReader.parse_json *)
+Lemma src_json_parse_json_rrel : forall doc fuel, (aval_depth doc <= fuel)%nat ->
+  rrel (fun pm m => m = erase_fm pm) (json_read doc) (py_JSONReader_parse_json fuel doc).
+Proof.
+  intros doc fuel Hf. rewrite json_read_constraints. unfold py_JSONReader_parse_json.
+  rewrite aval_get_jget.
+  destruct (jget "features" doc) as [fv|e] eqn:Hfv; cbn [bind]; [|apply rrel_err_same].
+  rewrite aval_get_jget.
+  destruct (jget "constraints" doc) as [cv|e] eqn:Hcv; cbn [bind]; [|apply rrel_err_same].
+  pose proof (depth_jget _ _ _ Hfv) as D1. pose proof (depth_jget _ _ _ Hcv) as D2.
+  assert (D3 : (aval_depth fv < fuel)%nat) by lia.
+  pose proof (src_parse_tree_rel (aval_depth fv) fuel fv (le_n _) D3 [] PNone None) as Ht.
+  destruct (json_parse_tree (aval_depth fv) [] PNone fv) as [pr|e],
+           (py_parse_tree fuel None fv) as [r|e']; cbn [rrel] in Ht; try contradiction; cbn [bind]; [|exact Ht].
+  subst r.
+  destruct cv as [| | | | |cl|]; cbn [jlist bind]; try (apply rrel_err_other; discriminate).
+  assert (D4 : (list_max (map aval_depth cl) <= fuel)%nat).
+  { apply list_max_le. rewrite Forall_forall. intros d Hd. apply in_map_iff in Hd.
+    destruct Hd as (x & <- & Hx). pose proof (depth_list_in _ _ Hx). lia. }
+  rewrite (src_parse_constraints cl fuel D4).
+  change (mapM _ cl) with (mapM src_ctc_of cl) at 2.
+  pose proof (mapM_rrel model_ctc_of src_ctc_of cl (fun x _ => src_model_ctc_rrel x)) as Hc.
+  destruct (mapM model_ctc_of cl) as [cs|e], (mapM src_ctc_of cl) as [cs'|e'];
+    cbn [rrel bind] in Hc |- *; try contradiction; [|exact Hc].
+  subst cs'. reflexivity.
+Qed.
+
+(* a model read by the hand-written reader is what the translated reader returns, pointers forgotten *)
+Theorem src_json_parse_json : forall doc pm, json_read doc = Ok pm ->
+  exists n0, forall fuel, (n0 <= fuel)%nat -> py_JSONReader_parse_json fuel doc = Ok (erase_fm pm).
+Proof.
+  intros doc pm H. exists (aval_depth doc). intros fuel Hf.
+  pose proof (src_json_parse_json_rrel doc fuel Hf) as R. rewrite H in R.
+  destruct (py_JSONReader_parse_json fuel doc) as [m|e]; cbn [rrel] in R; [|contradiction].
+  now subst m.
+Qed.
+
+(* a document the hand-written reader rejects is rejected by the translated reader *)
+Theorem src_json_parse_json_error : forall doc e, json_read doc = Err e ->
+  exists n0, forall fuel, (n0 <= fuel)%nat -> exists e', py_JSONReader_parse_json fuel doc = Err e'.
+Proof.
+  intros doc e H. exists (aval_depth doc). intros fuel Hf.
+  pose proof (src_json_parse_json_rrel doc fuel Hf) as R. rewrite H in R.
+  destruct (py_JSONReader_parse_json fuel doc) as [m|e']; cbn [rrel] in R; [contradiction|].
+  exists e'. reflexivity.
+Qed.
+
+(* ... and with the library's ParsingException when the hand-written reader says so *)
+Theorem src_json_parse_json_library_error : forall doc, json_read doc = Err ParsingException ->
+  exists n0, forall fuel, (n0 <= fuel)%nat -> py_JSONReader_parse_json fuel doc = Err ParsingException.
+Proof.
+  intros doc H. exists (aval_depth doc). intros fuel Hf.
+  pose proof (src_json_parse_json_rrel doc fuel Hf) as R. rewrite H in R.
+  destruct (py_JSONReader_parse_json fuel doc) as [m|e']; cbn [rrel] in R; [contradiction|].
+  now rewrite (R eq_refl).
+Qed.
+
+
+(* The exception KINDS are not the same in general (so "= json_read doc" with the pointers erased is false on
+   malformed documents): an attribute whose name is no string is OtherExn in the model, TypeError in the
+   translation; a relation whose type is no string is OtherExn in the model and ParsingException in the
+   translation (so the converse of the third theorem fails). *)
+Example src_json_attr_name_kind :
+  let doc := VMap [("features", VMap [("name", VStr "A"); ("abstract", VBool false);
+                                      ("attributes", VList [VMap [("name", VInt 1)]])]);
+                   ("constraints", VList [])] in
+  (match json_read doc with Ok _ => None | Err e => Some e end,
+   match py_JSONReader_parse_json 10 doc with Ok _ => None | Err e => Some e end)
+  = (Some OtherExn, Some TypeError).
+Proof. vm_compute. reflexivity. Qed.
+
+Example src_json_rel_type_kind :
+  let doc := VMap [("features", VMap [("name", VStr "A"); ("abstract", VBool false);
+                                      ("relations", VList [VMap [("type", VInt 1);
+                                         ("children", VList [VMap [("name", VStr "B"); ("abstract", VBool false)]])]])]);
+                   ("constraints", VList [])] in
+  (match json_read doc with Ok _ => None | Err e => Some e end,
+   match py_JSONReader_parse_json 10 doc with Ok _ => None | Err e => Some e end)
+  = (Some OtherExn, Some ParsingException).
+Proof. vm_compute. reflexivity. Qed.
+
+Print Assumptions src_json_parse_json_error.
+Print Assumptions src_json_parse_json_library_error.
+Print Assumptions src_json_parse_json.
